@@ -1075,7 +1075,9 @@ Fixpoint hashable (v : xval) : bool :=
 Fixpoint kv_set (kvs : list (xval * xval)) (k v : xval) : list (xval * xval) :=
   match kvs with
   | [] => [(k, v)]
-  | (k', v') :: r => if key_eqb k k' then (k', v) :: r else (k', v') :: kv_set r k v
+  | (k', v') :: r =>
+      (* an equal key is overwritten too (runtime needkeyupdate: +0 and -0 are equal floats) *)
+      if key_eqb k k' then (k, v) :: r else (k', v') :: kv_set r k v
   end.
 
 Definition map_set (st : dstate) (c : nat) (k v : xval) : dres :=
